@@ -55,6 +55,12 @@ func modeArgOf(p *Program, wrapper string, fn *ssa.Function, modeIdx int) *ssa.C
 // mode k: the parameter itself, comparisons with constants, and calls of foldable functions of the module
 // (m.keepsReserved()). Nothing is run: consteval folds the SSA of the helpers.
 func evalModeCond(p *Program, v ssa.Value, mode ssa.Value, k *ssa.Const, depth int) (cval, bool) {
+	return evalModeCondX(p, v, mode, k, depth, nil)
+}
+
+// evalModeCondX: as evalModeCond; opaque stands in for values that are not computed from the mode (a pointer to
+// the object that holds it, handed to an accessor).
+func evalModeCondX(p *Program, v ssa.Value, mode ssa.Value, k *ssa.Const, depth int, opaque func(ssa.Value) (cval, bool)) (cval, bool) {
 	if depth > 6 {
 		return cval{}, false
 	}
@@ -80,19 +86,19 @@ func evalModeCond(p *Program, v ssa.Value, mode ssa.Value, k *ssa.Const, depth i
 	case *ssa.Const:
 		return constVal(x)
 	case *ssa.Convert:
-		return evalModeCond(p, x.X, mode, k, depth+1)
+		return evalModeCondX(p, x.X, mode, k, depth+1, opaque)
 	case *ssa.ChangeType:
-		return evalModeCond(p, x.X, mode, k, depth+1)
+		return evalModeCondX(p, x.X, mode, k, depth+1, opaque)
 	case *ssa.UnOp:
 		if x.Op == token.NOT {
-			a, ok := evalModeCond(p, x.X, mode, k, depth+1)
+			a, ok := evalModeCondX(p, x.X, mode, k, depth+1, opaque)
 			if ok && a.kind == cvBool {
 				return cval{kind: cvBool, b: !a.b}, true
 			}
 		}
 	case *ssa.BinOp:
-		a, ok1 := evalModeCond(p, x.X, mode, k, depth+1)
-		b, ok2 := evalModeCond(p, x.Y, mode, k, depth+1)
+		a, ok1 := evalModeCondX(p, x.X, mode, k, depth+1, opaque)
+		b, ok2 := evalModeCondX(p, x.Y, mode, k, depth+1, opaque)
 		if !ok1 || !ok2 || a.kind != b.kind {
 			return cval{}, false
 		}
@@ -109,6 +115,18 @@ func evalModeCond(p *Program, v ssa.Value, mode ssa.Value, k *ssa.Const, depth i
 			eq, lt = a.s == b.s, a.s < b.s
 		default:
 			return cval{}, false
+		}
+		if a.kind == cvInt {
+			switch x.Op {
+			case token.AND:
+				return cval{kind: cvInt, i: wrapInt(a.i&b.i, x.Type())}, true
+			case token.OR:
+				return cval{kind: cvInt, i: wrapInt(a.i|b.i, x.Type())}, true
+			case token.XOR:
+				return cval{kind: cvInt, i: wrapInt(a.i^b.i, x.Type())}, true
+			case token.AND_NOT:
+				return cval{kind: cvInt, i: wrapInt(a.i&^b.i, x.Type())}, true
+			}
 		}
 		switch x.Op {
 		case token.EQL:
@@ -131,7 +149,10 @@ func evalModeCond(p *Program, v ssa.Value, mode ssa.Value, k *ssa.Const, depth i
 		}
 		var args []cval
 		for _, a := range x.Common().Args {
-			av, ok := evalModeCond(p, a, mode, k, depth+1)
+			av, ok := evalModeCondX(p, a, mode, k, depth+1, opaque)
+			if !ok && opaque != nil {
+				av, ok = opaque(a)
+			}
 			if !ok {
 				return cval{}, false
 			}
@@ -143,6 +164,9 @@ func evalModeCond(p *Program, v ssa.Value, mode ssa.Value, k *ssa.Const, depth i
 			return cval{}, false
 		}
 		return res, true
+	}
+	if opaque != nil {
+		return opaque(v)
 	}
 	return cval{}, false
 }
